@@ -10,6 +10,7 @@ as a function on character data with the law "text made of XML 1.0 characters su
 -/
 import XlModel.Lemmas.Bstr
 import XlModel.Lemmas.Grid
+import XlModel.Lemmas.Grid2
 
 namespace XlModel.Props.C01
 open XlModel XlModel.Bstr XlModel.Grid
@@ -136,6 +137,17 @@ theorem checkSheet_after_trim (s : List Row) (h : Dense s) : checkSheet (trimRow
   intro i hi
   have := (h.2 i hi).1
   omega
+
+/-- open: `checkRow` returns a dense row unchanged (row `i+1` inside the grid, any number of cells
+up to XFD): references decode to their own slot, nothing is rebuilt. Uses C20's codec round trip. -/
+theorem checkRow_dense_row (i : Nat) (D : List Cell) (hi : i < Facts.TotalRows) (hD : DenseRow i D) :
+    checkRowOne (i + 1) D = .ok D := checkRowOne_dense i D hi hD
+
+/-- **save + open is the identity** on every dense sheet whose rows the trim does not touch (each
+row either has a value in every cell or is blank without attributes) — full strength for that
+class, unbounded rows and columns; in particular such a sheet is a fixed point of a second cycle. -/
+theorem cycle_untrimmed_identity (s : List Row) (h : Dense s) (hu : ∀ row ∈ s, trimRowOne row = some row) :
+    cycle s = .ok s := cycle_untrimmed s h hu
 
 /-- **trim_densify_obs (partial)**: for every dense sheet, if `checkRow` re-densifies each saved
 row to a dense row with the same content at every position (hypothesis `hrow`, the per-row
